@@ -5,6 +5,7 @@
    implementation returned, correspondence aspects (rt, m_...) compare the model with it. *)
 open Model
 open Model.AccessM
+open Model.MaskedIterM
 type string = Stdlib.String.t
 let max = Stdlib.max
 let min = Stdlib.min
@@ -39,7 +40,53 @@ let run (args : (string * string) list) : string =
   let add k v = Buffer.add_string res (" " ^ k ^ "=" ^ v) in
   let okf b detail = if b then "ok" else "FAIL(" ^ clean detail ^ ")" in
   let okf' s = if s = "" then "ok" else "FAIL(" ^ clean s ^ ")" in
-  if get_opt args "skipped" = Some "1" then begin add "skipped" "1"; Buffer.contents res end
+  if get_opt args "kind" = Some "mi" then begin
+    (* the public MaskedIter alone: extracted state machine against the implementation *)
+    let l = ints_of_string (get args "l") and bs = ints_of_string (get args "bs") in
+    let dbg = get_int args "dbg" = 1 in
+    let status = get args "status" in
+    (* independent reference: alternately keep / drop blocks, keep the tail iff the number
+       of blocks is even *)
+    let rec mask_ref c bs l =
+      match bs with
+      | [] -> if c then l else []
+      | b :: bs' -> (if c then firstn b l else []) @ mask_ref (not c) bs' (skipn b l) in
+    let sum = List.fold_left (+) 0 bs in
+    let nl = List.length l in
+    let canonical =
+      sum <= nl && List.for_all (fun b -> b >= 1) (match bs with [] -> [] | _ :: t -> t)
+      && (List.length bs mod 2 = 1 || sum < nl) in
+    (* oracle: on canonical pairs the implementation must not panic, must yield the masked
+       list and report its length *)
+    add "mi_spec"
+      (if not canonical then "ok"
+       else if status <> "ok" then "FAIL(panic-on-canonical-blocks)"
+       else
+         let out = ints_of_string (get args "out") in
+         okf (out = mask_ref true bs l && get_int args "len" = List.length out) "differs-from-mask");
+    add "mi_class" (if canonical then "canonical" else if status = "ok" then "noncanonical-ok" else "noncanonical-panic");
+    (* correspondence: same items and length, or the same kind of failure *)
+    let kind_of_msg m =
+      let has sub =
+        let n = String.length sub and k = String.length m in
+        let rec go i = i + n <= k && (String.sub m i n = sub || go (i + 1)) in go 0 in
+      if has "index_out_of_bounds" then 1
+      else if has "subtract_with_overflow" then 2
+      else if has "assertion" then 4
+      else 0 in
+    let model = mi_collect dbg (List.map n_of_int l) (List.map n_of_int bs) in
+    add "m_mi"
+      (match model, status with
+       | MOk (len, out), "ok" ->
+         okf (List.map int_of_n out = ints_of_string (get args "out") && int_of_n len = get_int args "len")
+           (Printf.sprintf "model:%s;len:%d" (string_of_ints (List.map int_of_n out)) (int_of_n len))
+       | MErr e, "panic" ->
+         let k = kind_of_msg (get args "msg") in
+         okf (k = int_of_n (mi_err_code e)) (Printf.sprintf "model-error:%d;impl:%d" (int_of_n (mi_err_code e)) k)
+       | MOk _, _ -> "FAIL(impl-panics-model-does-not)"
+       | MErr e, _ -> Printf.sprintf "FAIL(model-error:%d;impl-ok)" (int_of_n (mi_err_code e)));
+    Buffer.contents res end
+  else if get_opt args "skipped" = Some "1" then begin add "skipped" "1"; Buffer.contents res end
   else if get args "ef_status" <> "ok" then begin
     add "ef" ("FAIL(" ^ clean (get args "ef_status") ^ ")"); Buffer.contents res end
   else begin
@@ -91,6 +138,16 @@ let run (args : (string * string) list) : string =
            else if ra_labels (rd_bits le cs) seek p (nat_of_int dep) (n_of_int x) <> None then
              bad := Printf.sprintf "x:%d;fuel:%d-not-needed" x dep) deps;
        add "m_fuel" (okf (!bad = "") !bad);
+       (* random access through the index-level state machines of MaskedIter and Succ
+          (two nested calls per level in the model: nodes of depth <= 10 only) *)
+       if get args "ra" = "ok" then begin
+         let bad = ref "" in
+         List.iteri (fun x dep ->
+             if dep <= 10 && !bad = "" then
+               if ra_labels_sm (rd_bits le cs) seek true p (nat_of_int (dep + 1)) (n_of_int x)
+                  <> Some (List.nth g x) then bad := Printf.sprintf "x:%d" x) deps;
+         add "m_sm" (okf (!bad = "") !bad)
+       end;
        (match p.max_ref with
         | Some m -> add "depth" (okf (List.for_all (fun d -> d <= int_of_n m) deps) "chain-deeper-than-max-ref")
         | None -> ()));
